@@ -355,6 +355,16 @@ fn build_args(rt: &tokio::runtime::Runtime, rng: &mut Rng, thorough: bool, specv
 }
 /// argument decoding against the Coq model (Model/VPLArgs.v): entries are integer literals and words, arrays of 0..8 entries,
 /// parameters given twice, scalar parameters given as arrays
+/// C18 ("missing or mistyped parameters are rejected"): the argument lines of filter_bbox / filter_zoom for the C18 check
+pub fn arg_lines_into(ctx: &Ctx, col: &mut Collector) -> Result<()> {
+	let rt = tokio::runtime::Builder::new_multi_thread().worker_threads(2).enable_all().build()?;
+	let mut rng = Rng::new(ctx.seed ^ 0x18a);
+	let mut specv: Vec<SpecV> = Vec::new(); let mut stats = BTreeMap::new();
+	arg_lines(&rt, &mut rng, ctx.thorough, &mut col.out, &mut specv, &mut stats);
+	for x in &specv { col.violation(&x.kind, &x.expr, &x.expr, &x.detail); }
+	for (k, v) in stats { col.bump(&k, v); }
+	Ok(())
+}
 fn arg_lines(rt: &tokio::runtime::Runtime, rng: &mut Rng, thorough: bool, out: &mut Out, specv: &mut Vec<SpecV>, stats: &mut BTreeMap<String, u64>) {
 	// (unquoted values: the VPL grammar has no leading '+')
 	let pool = ["0", "1", "-1", "5", "20", "45", "90", "91", "-90", "-91", "180", "181", "-180", "-181", "005", "north", "x", "1e", "--1", "7", "-", "255", "256", "31", "32", "33"];
